@@ -146,7 +146,7 @@ class Space:
                 ("outside", float(np.nextafter(self.a, -np.inf))), ("outside", float(np.nextafter(self.b, np.inf)))]
 
 
-def random_space(rng, fast=False, max_cells=24, periodic=None, a=None, b=None, p=None):
+def random_space(rng, fast=False, max_cells=24, periodic=None, a=None, b=None, p=None, kinds=None):
     if fast:
         p = 3
     elif p is None:
@@ -155,7 +155,7 @@ def random_space(rng, fast=False, max_cells=24, periodic=None, a=None, b=None, p
         periodic = rng.random() < 0.45
     lo = p + 1 if periodic else 1
     ncells = rng.choice([lo, lo + 1, lo + 2, rng.randint(lo, max(lo, 10)), rng.randint(lo, max(lo, max_cells))])
-    kind = "uniform" if fast else rng.choice(["uniform", "random", "graded", "alternating"])
+    kind = "uniform" if fast else rng.choice(list(kinds or ["uniform", "random", "graded", "alternating"]))
     return Space(rng, p, ncells, periodic, kind, a, b)
 
 
@@ -190,7 +190,7 @@ def gen_nu_1d(rng, n):
                                cls="%s/%s" % (lab, pc), tol=_tol(dscale, p + 1)))
             for der in (0, 1):
                 calls.append(_call(mod, "nu_eval_spline_1d_scalar", [_scal(rng, x), T, p, c, der],
-                                   cls="%s/%s/der%d/%s" % (lab, pc, der, ckind),
+                                   cls="%s/%s/der%d/%s" % (lab, pc, der, ckind), mech="der%d" % der,
                                    tol=_tol(cmax * (dscale if der else 1.0), p + 1)))
         # extrapolation branch of the basis functions: compared relative to the size of the values
         for pc, x in S.outside(rng)[:2]:
@@ -212,12 +212,10 @@ def gen_nu_1d(rng, n):
                 kw = {"der": 1}
                 der = 1
             calls.append(_call(mod, "nu_eval_spline_1d_vector", args, out=[4], kwargs=kw,
-                               cls="%s/vector/%s/%s" % (lab, variant, ckind),
+                               cls="%s/vector/%s/%s" % (lab, variant, ckind), mech="der%d" % der,
                                tol=_tol(cmax * (dscale if der else 1.0), p + 1)))
         # a strided (non-contiguous) view as evaluation points
-        big = np.zeros(2 * len(xs))
-        big[::2] = xs
-        calls.append(_call(mod, "nu_eval_spline_1d_vector", [big[::2], T, p, c, farr(rs.uniform(-1, 1, len(xs)))], out=[4],
+        calls.append(_call(mod, "nu_eval_spline_1d_vector", [Strided(xs, 2), T, p, c, farr(rs.uniform(-1, 1, len(xs)))], out=[4],
                            cls="%s/vector/strided-x" % lab, tol=_tol(cmax, p + 1)))
     return calls
 
@@ -271,16 +269,16 @@ def _gen_2d(rng, n, fast):
         for (c1, x), (c2, y) in pairs:
             for vname, extra, kw, d in _DER_VARIANTS:
                 calls.append(_call(mod, pre + "_eval_spline_2d_scalar", [_scal(rng, x), _scal(rng, y), k1, S1.p, k2, S2.p, c] + extra,
-                                   kwargs=kw, cls="%s/%s,%s/%s/%s" % (lab, c1, c2, vname, ckind), tol=tol(d)))
+                                   kwargs=kw, cls="%s/%s,%s/%s/%s" % (lab, c1, c2, vname, ckind), tol=tol(d), mech="der%d%d" % d))
         X = farr([x for _, x in P1])
         Y = farr([y for _, y in P2])
         for vname, extra, kw, d in _DER_VARIANTS:
             calls.append(_call(mod, pre + "_eval_spline_2d_cross", [X, Y, k1, S1.p, k2, S2.p, c, farr(rs.uniform(-1, 1, (len(X), len(Y))))] + extra,
-                               kwargs=kw, out=[7], cls="%s/cross/%s/%s" % (lab, vname, ckind), tol=tol(d)))
+                               kwargs=kw, out=[7], cls="%s/cross/%s/%s" % (lab, vname, ckind), tol=tol(d), mech="der%d%d" % d))
         m = min(len(X), len(Y))
         for vname, extra, kw, d in _DER_VARIANTS:
             calls.append(_call(mod, pre + "_eval_spline_2d_vector", [farr(X[:m]), farr(Y[:m]), k1, S1.p, k2, S2.p, c, farr(rs.uniform(-1, 1, m))] + extra,
-                               kwargs=kw, out=[7], cls="%s/vector/%s/%s" % (lab, vname, ckind), tol=tol(d)))
+                               kwargs=kw, out=[7], cls="%s/vector/%s/%s" % (lab, vname, ckind), tol=tol(d), mech="der%d%d" % d))
     return calls
 
 
@@ -323,7 +321,7 @@ def gen_cu_1d(rng, n):
                                cls="%s/%s" % (lab, pc), tol=_tol(dscale, 4)))
             for der in (0, 1):
                 calls.append(_call(mod, "cu_eval_spline_1d_scalar", [_scal(rng, x), k, 3, c, der],
-                                   cls="%s/%s/der%d/%s" % (lab, pc, der, ckind), tol=_tol(cmax * (dscale if der else 1.0), 4)))
+                                   cls="%s/%s/der%d/%s" % (lab, pc, der, ckind), mech="der%d" % der, tol=_tol(cmax * (dscale if der else 1.0), 4)))
         xs = farr([x for _, x in pts])
         for variant in ("default", "pos0", "pos1", "kw1"):
             args = [xs, k, 3, c, farr(rs.uniform(-1, 1, len(xs)))]
@@ -338,7 +336,7 @@ def gen_cu_1d(rng, n):
                 kw = {"der": 1}
                 der = 1
             calls.append(_call(mod, "cu_eval_spline_1d_vector", args, out=[4], kwargs=kw,
-                               cls="%s/vector/%s/%s" % (lab, variant, ckind), tol=_tol(cmax * (dscale if der else 1.0), 4)))
+                               cls="%s/vector/%s/%s" % (lab, variant, ckind), mech="der%d" % der, tol=_tol(cmax * (dscale if der else 1.0), 4)))
     return calls
 
 
@@ -371,8 +369,8 @@ def _feq_kappa(d, vmax):
     """condition of f_eq wrt rounding of the arguments of exp: 1 + |exponents|"""
     a_n = abs(d["kN0"] * d["deltaRN0"])
     a_t = abs(d["kTi"] * d["deltaRTi"])
-    ti_min = d["CTi"] * math.exp(-a_t)
-    return 4.0 + a_n + 2 * a_t + 0.5 * vmax * vmax / ti_min * (1 + a_t)
+    # |d exp(-x)| <= eps*x*exp(-x) <= eps/e whatever x = v^2/(2 Ti): the velocity does not enter
+    return 6.0 + a_n + 3 * a_t
 
 
 def _feq_max(d):
@@ -462,9 +460,9 @@ def gen_poisson(rng, n):
                 rho0 = rho0 + 1j * rs.uniform(-1, 1, (nr, nz, nq))
             shp = "nv%s" % ("1" if nv == 1 else "2+")
             calls.append(_call(mod, "get_perturbed_rho", [np.ascontiguousarray(rho0), feq, grid, q], out=[0],
-                               cls="%s/%s" % (dn, shp), tol=_tol(scale, nv + 1)))
+                               cls="%s/%s" % (dn, shp), tol=_tol(scale, nv + 1), mech=dn))
             calls.append(_call(mod, "get_rho", [np.ascontiguousarray(rho0.copy()), grid, q], out=[0],
-                               cls="%s/%s" % (dn, shp), tol=_tol(scale, nv + 1)))
+                               cls="%s/%s" % (dn, shp), tol=_tol(scale, nv + 1), mech=dn))
     return calls
 
 
@@ -502,7 +500,7 @@ def gen_flux(rng, n):
         lip = 2.0 * S.p / S.hmin
         calls.append(_call(mod, "get_lagrange_vals", [i, shifts, vals, qv, ths, kts, S.p, c, bool(fast)], out=[2],
                            cls="%s/%s/%s" % ("cu" if fast else "nu", S.label(), ckind),
-                           tol=_tol(cmax * (1 + lip * (TWO_PI + float(np.abs(ths).max()))), S.p + 1)))
+                           tol=_tol(cmax * (1 + lip * (TWO_PI + float(np.abs(ths).max()))), S.p + 1), mech="cu" if fast else "nu"))
     return calls
 
 
@@ -534,14 +532,14 @@ def gen_vpar(rng, n):
                 calls.append(_call(mod, "v_parallel_advection_eval_step",
                                    [farr(rs.uniform(-1, 1, len(vpts))), vpts, _scal(rng, r), vMin, vMax, kts, S.p, c] + feq_args + [bound, bool(fast)],
                                    out=[0], cls="%s/bound%d/%s/%s" % ("cu" if fast else "nu-p%d" % S.p, bound, sname, ckind),
-                                   tol=_tol(cmax + _feq_max(d), (S.p + 1) + kap)))
+                                   tol=_tol(cmax + _feq_max(d), (S.p + 1) + kap), mech="%s/bound%d" % ("cu" if fast else "nu", bound)))
     return calls
 
 
 def _poloidal_setup(rng, rs, fast):
     d = _phys(rng)
-    Sq = random_space(rng, fast=fast, periodic=True, a=0.0, b=TWO_PI, max_cells=9, p=None if fast else rng.choice([1, 2, 3, 3, 4, 5]))
-    Sr = random_space(rng, fast=fast, periodic=False, a=d["rmin"], b=d["rmax"], max_cells=8, p=None if fast else rng.choice([1, 2, 3, 3, 4, 5]))
+    Sq = random_space(rng, fast=fast, periodic=True, a=0.0, b=TWO_PI, max_cells=9, p=None if fast else rng.choice([1, 2, 3, 3, 4, 5]), kinds=["uniform", "random"])
+    Sr = random_space(rng, fast=fast, periodic=False, a=d["rmin"], b=d["rmax"], max_cells=8, p=None if fast else rng.choice([1, 2, 3, 3, 4, 5]), kinds=["uniform", "random"])
     if Sr.ncells < 2:
         Sr = Space(rng, Sr.p, 2 + rng.randint(0, 3), False, Sr.kind, d["rmin"], d["rmax"])
     nq, nr = rng.randint(3, 8), rng.randint(3, 7)
@@ -622,8 +620,8 @@ def gen_poloidal(rng, n, scheme):
         calls.append(_call(mod, fn, args, out=[0, 5, 6, 7, 8, 9, 10, 11, 12],
                            cls="%s/%s+%s/nulBound-%s/%s" % ("cu" if fast else "nu", Sq.label(), Sr.label(), nb,
                                                            "dt0" if dt == 0 else ("disp%g" % disp)),
-                           tol={"abs": t_pts, "rel": 0.0}, tols=tols, circ={9: TWO_PI, 11: TWO_PI},
-                           guard={"kind": "poloidal", "scheme": scheme, "g": t_pts, "tol_index": (33 if scheme == "impl" else None)}))
+                           tol={"abs": t_pts, "rel": 0.0}, tols=tols, circ={9: TWO_PI, 11: TWO_PI}, mech="%s/nulBound-%s" % ("cu" if fast else "nu", nb),
+                           guard={"kind": "poloidal", "scheme": scheme, "g": t_pts, "tol_index": (31 if scheme == "impl" else None)}))
     return calls
 
 
@@ -637,16 +635,16 @@ def gen_pol_impl(rng, n):
 
 # family -> (module, generator, draws in quick, draws in thorough, relative cost)
 FAMILIES = {
-    "nu_1d": ("spline_eval_funcs", gen_nu_1d, 3, 10, 2),
-    "nu_2d": ("spline_eval_funcs", gen_nu_2d, 2, 6, 4),
-    "cu_1d": ("cubic_uniform_spline_eval_funcs", gen_cu_1d, 3, 10, 1),
-    "cu_2d": ("cubic_uniform_spline_eval_funcs", gen_cu_2d, 2, 6, 3),
-    "init": ("initialiser_funcs", gen_init, 3, 10, 1),
-    "poisson": ("poisson_tools", gen_poisson, 4, 12, 2),
-    "flux": ("accelerated_advection_steps", gen_flux, 6, 20, 1),
-    "vpar": ("accelerated_advection_steps", gen_vpar, 2, 6, 1),
-    "pol_expl": ("accelerated_advection_steps", gen_pol_expl, 3, 8, 5),
-    "pol_impl": ("accelerated_advection_steps", gen_pol_impl, 3, 8, 8),
+    "nu_1d": ("spline_eval_funcs", gen_nu_1d, 8, 24, 2),
+    "nu_2d": ("spline_eval_funcs", gen_nu_2d, 6, 16, 4),
+    "cu_1d": ("cubic_uniform_spline_eval_funcs", gen_cu_1d, 8, 24, 1),
+    "cu_2d": ("cubic_uniform_spline_eval_funcs", gen_cu_2d, 6, 16, 3),
+    "init": ("initialiser_funcs", gen_init, 8, 24, 1),
+    "poisson": ("poisson_tools", gen_poisson, 10, 30, 2),
+    "flux": ("accelerated_advection_steps", gen_flux, 16, 48, 1),
+    "vpar": ("accelerated_advection_steps", gen_vpar, 6, 18, 1),
+    "pol_expl": ("accelerated_advection_steps", gen_pol_expl, 10, 30, 5),
+    "pol_impl": ("accelerated_advection_steps", gen_pol_impl, 10, 30, 8),
 }
 FAMILIES_OF_MODULE = {}
 for _f, (_m, _g, _a, _b, _c) in FAMILIES.items():
@@ -662,22 +660,25 @@ def stream(family, seed, n):
 # executing a stream against a namespace {module: python module}
 
 
+class Strided:
+    """a 1-D non-contiguous view (base[::step]) as an argument; survives pickling as a view"""
+
+    def __init__(self, data, step=2):
+        self.data = np.array(data, dtype=np.float64)
+        self.step = int(step)
+
+    def view(self):
+        big = np.zeros(len(self.data) * self.step, dtype=self.data.dtype)
+        big[::self.step] = self.data
+        return big[::self.step]
+
+
 def copy_arg(a):
+    if isinstance(a, Strided):
+        return a.view()
     if isinstance(a, np.ndarray):
-        if a.flags.c_contiguous or a.ndim != 1:
-            return np.array(a, copy=True, order="K") if a.flags.c_contiguous else _copy_view(a)
-        return _copy_view(a)
+        return np.array(a, copy=True, order="C")
     return a
-
-
-def _copy_view(a):
-    """copy that keeps the strides pattern of a non-contiguous view (1-D step views, trailing slices)"""
-    if a.ndim == 1 and a.strides[0] != a.itemsize and a.strides[0] % a.itemsize == 0 and a.strides[0] > 0:
-        step = a.strides[0] // a.itemsize
-        big = np.zeros(len(a) * step, dtype=a.dtype)
-        big[::step] = a
-        return big[::step]
-    return np.array(a, copy=True)
 
 
 def run_call(fn, call):
@@ -761,13 +762,14 @@ def poloidal_masks(call, ref):
     k2r = ref["arrs"][12]
 
     def near(a):
-        return (np.abs(a - lo) <= g) & (a != lo) | (np.abs(a - hi) <= g) & (a != hi)
-    if call["guard"]["scheme"] == "expl":
-        # stage 1 feet: rPts[j] + dthetaPhi_0*mf is compared with the end points of the radial grid
+        return (np.abs(a - lo) <= g) | (np.abs(a - hi) <= g)
+    if call["guard"]["scheme"] == "expl" and call["args"][1] != 0.0:
+        # stage 1 feet rPts[j] + dthetaPhi_0*mf and stage 2 feet are compared with the ends of the radial grid
         m1 = near(k1r)
         m2 = m1 | near(k2r)
         return m1, m2
-    # implicit scheme: feet are clipped into the domain, the final value is continuous in them
+    # dt == 0: every foot is a node, bit for bit, in any implementation.  Implicit scheme: feet are
+    # clipped into the domain and the final value is continuous in them
     z = np.zeros(k2r.shape, dtype=bool)
     return z, z
 
@@ -785,7 +787,7 @@ def compare(call, ref, got, alt_refs=()):
     masks = {}
     if call.get("guard") and call["guard"].get("kind") == "poloidal":
         m1, m2 = poloidal_masks(call, ref)
-        for k in (7, 8, 9, 10):
+        for k in (7, 8):
             masks[str(k)] = m1
         for k in (0, 11, 12):
             masks[str(k)] = m2
